@@ -404,7 +404,9 @@ def main(argv=None):
     if herr:
         for r in herr[:10]:
             print(f"HARNESS-ERROR property={pid} obligation={r['oid']} {r.get('reason')} {json.dumps(r.get('cex'))[:600]}")
-        return 3
+        if not viol:
+            return 3
+        print("  (natively reproduced violations exist as well and are reported; the harness errors above concern other obligations)")
     if viol:
         for l in lines:
             print(l)
